@@ -31,6 +31,13 @@ def run(ctx):
     ctx.rule("R-FLOW", "value provenance of the result")
     ctx.rule("R-SIB", "Eq and Hash look at the same field")
 
+    # the comparison operators are the ones std derives from partial_cmp: no hand-written lt / le / gt / ge (which could
+    # treat the partial order as total), and no Ord impl
+    over = sorted(n for n in f.bodies if re.match(r"^<%s as std::cmp::(PartialOrd|Ord)>::(lt|le|gt|ge|cmp|max|min|clamp)$" % re.escape(S), n))
+    ctx.ob("R-SIB", "Serial:operators-derive-from-partial_cmp", not over,
+           "`<`, `<=`, `>`, `>=` on Serial are std's defaults over partial_cmp (undefined pairs compare false both ways); there is "
+           "no overriding method and no total Ord", detail=over or None)
+
     fn = "<%s as std::cmp::PartialOrd>::partial_cmp" % S
     b = f.body(fn)
     if b is None:
